@@ -27,9 +27,12 @@ PROP_MODULES = ["QuicProofs.Props.C14TpAuthWire"]
 
 
 def run(ctx):
-    ctx.rule += (" | tpauth: a run is non-trivial when the validator of the REWRITTEN block reached transport-parameter processing "
-                 "(transport_parameters_received event, or a local TRANSPORT_PARAMETER_ERROR close) and gave a verdict "
-                 "(handshake complete / local transport error), and the handshake facts could be read unambiguously from the wire")
+    rule = ("tpauth: a run is non-trivial when the validator of the REWRITTEN block reached transport-parameter processing "
+            "(transport_parameters_received event, or a local TRANSPORT_PARAMETER_ERROR close) and gave a verdict "
+            "(handshake complete / local transport error), and the handshake facts could be read unambiguously from the wire; "
+            "a synthetic (handshake, block) pair is non-trivial when the model accepts it")
+    ctx.rule = (ctx.rule + " | " if ctx.rule else "") + rule
+    ctx.extra["tpauth_nontrivial_rule"] = rule      # (another part of C14 assigns ctx.rule afterwards)
     ctx.assumptions += [
         "tie T (tpauth) samples real client+server handshakes on the deterministic IO provider; the rewrite of the declared block happens "
         "inside the harness' TLS-provider wrapper (harness/vh-e2e/src/tpw.rs), i.e. the REAL validator sees bytes a real peer could have sent",
@@ -40,6 +43,7 @@ def run(ctx):
     lean_ok = step_lean(ctx, PROP_MODULES, [])
     if not lean_ok and not os.environ.get("VERIF_NO_ESCALATE"):
         ctx.escalated = True
+    e2e_c14_auth.synthetic_crosscheck(ctx, tier_n(ctx, 4000, 60000))
     n_cases = len(e2e_c14_auth.CASES)
 
     def post(traces):
